@@ -62,12 +62,12 @@ Definition spec_flags (rho : pid -> bool) (prog : list ctree) : list (asg * bool
 (* the payloads of the ACTIVE assignments to l, in program order *)
 Definition active_for (rho : pid -> bool) (prog : list ctree) (l : lhs) : list payload :=
   map (fun x => snd (fst x))
-      (filter (fun x => snd x && lhs_eqb (fst (fst x)) l) (spec_flags rho prog)).
+      (filter (fun x => snd x && lhs_eqb l (fst (fst x))) (spec_flags rho prog)).
 
 (* all assignments to l with their activity *)
 Definition flags_for (rho : pid -> bool) (prog : list ctree) (l : lhs) : list (payload * bool) :=
   map (fun x => (snd (fst x), snd x))
-      (filter (fun x => lhs_eqb (fst (fst x)) l) (spec_flags rho prog)).
+      (filter (fun x => lhs_eqb l (fst (fst x))) (spec_flags rho prog)).
 
 (* value of a wire / next value of a register: the unique active branch's rhs, else the default;
    None = the property does not define a value (two active assigning branches) *)
